@@ -558,6 +558,67 @@ def expr_worker(items, extra, progress):
 
 # ------------------------------------------------------------------ main
 
+def args_worker(items, extra, progress):
+    """the real Parser._parse_args (optimize() off) vs Model.parseArgs: children over [[ ]] | = and other strings/nodes."""
+    import itertools
+    import logging
+
+    from . import build_repo
+
+    build_repo.overlay_all()
+    logging.disable(logging.WARNING)
+    from mwlib.parser.templ import parser as P
+    from mwlib.parser.templ.marks import eqmark
+
+    from .common import Driver
+
+    sym = ["[[", "]]", "|", "=", None, None]
+    enc = {"[[": "[", "]]": "]", "|": "|", "=": "="}
+    reqs, meta, hist = [], [], Counter()
+    pr = P.Parser("")
+    old = P.optimize
+    P.optimize = lambda x: x
+    try:
+        for i, it in enumerate(items):
+            progress(i)
+            if isinstance(it, int):
+                rng = random.Random(it)
+                shape = [rng.choice(sym) for _ in range(rng.randint(0, 12))]
+                flag = rng.random() < 0.5
+            else:
+                flag, shape = it[0], [sym[k] for k in it[1]]
+            children, toks = [], []
+            for k, c in enumerate(shape):
+                if c is None:
+                    obj = "w%d" % k if k % 2 else ("node", k)      # a string or a parsed node
+                    children.append(obj)
+                    toks.append("x%d" % k)
+                else:
+                    children.append(c)
+                    toks.append(enc[c])
+            real = pr._parse_args(list(children), append_arg=flag)
+
+            def show(x):
+                if x is eqmark:
+                    return "E"
+                if isinstance(x, str) and x in enc:
+                    return enc[x]
+                return "x%d" % (int(x[1:]) if isinstance(x, str) else x[1])
+
+            rs = "n=%d " % len(real) + " / ".join(" ".join(show(x) for x in a) for a in real)
+            hist["argument-lists"] += 1
+            reqs.append("args %d %s" % (1 if flag else 0, " ".join(toks)))
+            meta.append((shape, flag, rs))
+    finally:
+        P.optimize = old
+    progress(len(items))
+    diffs = []
+    for (shape, flag, rs), o in zip(meta, Driver("braces").ask(reqs)):
+        if rs.strip() != o.strip():
+            diffs.append({"stream": "_parse_args", "children": shape, "append_arg": flag, "impl": rs, "model": o})
+    return diffs, [], dict(hist)
+
+
 def replay(chk, data):
     from . import build_repo
 
@@ -599,7 +660,9 @@ def run(chk: common.Check):
         "/repo by correspondence on this tree's compiled extensions",
         "translator: Gen/ExprOps.lean from expr.precedence / expr.unary_ops; the documented table in Props/C04.lean is hand-copied "
         "from MediaWiki's ExprParser",
-        "the brace parser templ/parser.py, the #expr tokenizer, number conversion, float arithmetic and result formatting are not "
+        "hand-written model lean/MwVerif/Model/Args.lean of Parser._parse_args, tied by correspondence on every children list of <= 5 (thorough 6) "
+        "symbols over [[ ]] | = other and random longer ones",
+        "the rest of templ/parser.py (node construction from children), the #expr tokenizer, number conversion, float arithmetic and result formatting are not "
         "modelled: they are covered by the Python reference interpreters working from program trees (differential, not a theorem)",
         "harness/c04.py: generators, reference semantics (sem, e_val), minimal/redundant parenthesiser over the documented levels",
     ]
@@ -613,8 +676,13 @@ def run(chk: common.Check):
     items = [chk.seed * 10_000_000 + 5_000_000 + i for i in range(ne)]
     r2, c2 = guard.guarded_run(scratch, "harness.c04:expr_worker", items, nproc=12, hard_timeout=60,
                                stop_when=lambda r, c: len(c) >= 2 or sum(len(x[1]) for x in r) >= 5)
+    import itertools
+    aitems = [(f, t) for f in (False, True) for n in range(0, (7 if tier == "thorough" else 6)) for t in itertools.product(range(5), repeat=n)]
+    aitems += [chk.seed * 10_000_000 + 6_000_000 + i for i in range(40000 if tier == "thorough" else 6000)]
+    r3, c3 = guard.guarded_run(scratch, "harness.c04:args_worker", aitems, nproc=12, hard_timeout=60)
+    c2 = c2 + c3
     diffs, viol, hist = [], [], Counter()
-    for d, v, h in r1 + r2:
+    for d, v, h in r1 + r2 + r3:
         diffs += d
         viol += v
         hist.update(h)
@@ -630,7 +698,7 @@ def run(chk: common.Check):
                 "operators, printed with minimal and with redundant parentheses: real operand/operator sequence vs Model.rpn, "
                 "real value vs the documented semantics (reference declines on ties, division by zero, negative mod, huge powers). "
                 "non-trivial = programs expanded + expressions with a reference value",
-        "traces_validated_against_impl": hist.get("programs", 0) + hist.get("expressions", 0),
+        "traces_validated_against_impl": hist.get("programs", 0) + hist.get("expressions", 0) + hist.get("argument-lists", 0),
         "correspondence_differences": len(diffs),
         "histogram": dict(hist),
         "operator_table": t["rows"],
